@@ -1,3 +1,4 @@
+from common import guarded
 """C11  The empty estimator is an exact identity of merge and lengths add exactly.  Engine K (+VL)."""
 import kjobs
 from hist_common import hist_job
@@ -184,10 +185,10 @@ def run(tier, seed):
     job.include_module(kjobs.MM, "minmax_c11.rs")
     from kani_engine import Harness
     job.add(Harness("minmax_merge_empty_identity", "C11.MinMax.merge_empty_identity", "<Min as Merge>::merge, <Max as Merge>::merge"))
-    obs = job.run()
-    obs += hist_job("C11", [1, 3], HIST, unwind=12, timeout=900, harness_timeout=400).run()
-    obs += copy_exact_rs(tier)
-    obs += vl.run_lemmas("C11", ["merge_tree", "lemma_fold"])
+    obs = guarded("C11.engine.job.run@L187", lambda: job.run())
+    obs += guarded("C11.engine.hist_job@L188", lambda: hist_job("C11", [1, 3], HIST, unwind=12, timeout=900, harness_timeout=400).run())
+    obs += guarded("C11.engine.copy_exact_rs@L189", lambda: copy_exact_rs(tier))
+    obs += guarded("C11.engine.vl.run_lemmas@L190", lambda: vl.run_lemmas("C11", ["merge_tree", "lemma_fold"]))
     meta = {
         "level": "proof",
         "checker_cmd": "cargo kani --no-default-features --features std (scratch copy + contracts/kani/{moments,covariance,weighted,moments_n,minmax_c11,histogram}.rs)",
